@@ -35,11 +35,14 @@ CLAIMED = {
              'per-type length bound (regex types over all of Unicode, the others over domain D) z3 shows '
              'on every path that the converter returns the reference value or raises ValueError exactly '
              'when the reference does, that key normalisers are idempotent and that Registry.get '
-             'normalises names; the regex languages are additionally proved equal to reference regexes '
-             'for strings of every length (z3 regex theory).',
-        note='trusted: z3, engine models of str/int()/regex primitives (replayed per path), '
-             'vf/oracles/dtspec.py, a pure-Python model of inet_pton(AF_INET6); float, timedelta, locale, '
-             'existing-* are outside the claim',
+             'normalises names; float and timedelta run on an exact rational model of float() / '
+             'datetime.timedelta (value within a tolerance, ValueError / TypeError classes exact); the regex '
+             'languages (basic-key, identifier, dotted-name, dotted-suffix, and ipaddr-or-hostname restricted to '
+             'colon-free strings) are additionally proved equal to reference regexes for strings of every '
+             'length (z3 regex theory).',
+        note='trusted: z3, engine models of str/int()/float()/regex primitives (replayed per path), '
+             'vf/oracles/dtspec.py, a pure-Python model of inet_pton(AF_INET6); binary floating-point rounding, '
+             'locale and existing-* are outside the claim',
         ref='DESIGN.md section 7 C09', engine='E1-VSE + E2-regex'),
     'C01': dict(
         text='For every schema of the generated family and every balanced line shape up to the line '
@@ -110,7 +113,9 @@ CLAIMED = {
              'specifiers (path components, key, value, and fully symbolic specifier strings) z3 shows on every '
              'path that loading with overrides gives the same value tree - or rejection, a conversion error '
              'where the edited text gives one - as loading the text edited by an independent editor that '
-             'implements the rule of the statement; specifiers without = or with an empty component are refused.',
+             'implements the rule of the statement; specifiers without = or with an empty component are refused. '
+             'Texts include case-sensitive key types (identifier, ipaddr-or-hostname) and %import-ed section types '
+             '(known finding F20: an override addressed to a section of an imported type is refused).',
         note='trusted: z3, engine models (replayed per path), the editor in vf/harness/c14.py; values with '
              'surrounding whitespace cannot be written as a text line and are excluded',
         ref='DESIGN.md section 7 C14'),
@@ -197,16 +202,20 @@ CLAIMED = {
              'between and after the uses (also two packages that import each other), in single loads, every '
              '(earlier load, later load) pair and sequences of up to 3 loads against one schema '
              'object, z3 shows on every path that accept/reject and value trees equal those of a conformance '
-             'oracle whose vocabulary an import extends from that line on for that load only; a separate '
+             'oracle whose vocabulary an import extends from that line on for that load only (also across an '
+             '%include, with one ConfigLoader object serving the sequence, after a component that fails half-way, '
+             'and with overrides pending - known finding F20); a separate '
              'obligation compares getsubtypenames() of the schema before and after (known finding F10).',
         note='trusted: z3, engine models (replayed per path), conformance oracle; package names concrete',
         ref='DESIGN.md section 7 C12'),
     'C13': dict(
-        text='Histories of up to 3 (thorough 4) operations, each chosen by a z3 integer from 13 operations {valid '
+        text='Histories of up to 3 (thorough 4) operations, each chosen by a z3 integer from 20 operations {valid '
              'loads + mutation of every reachable list/dict, valid loads using every kind of default (lists, '
              'keyed wildcard maps, string-list), syntax / matching / conversion / section-datatype failures, a '
-             'section using a name reserved by a key, %import load, load with overrides}, run against ONE schema object; every step '
-             'equals the same load against a fresh schema; a separate obligation compares a structural digest '
+             'section using a name reserved by a key and vice versa, %import loads (datatype names differing in case, a stock '
+             'datatype named by dotted path), loads with overrides (also into a keyed-default map), items without defaults}, '
+             'run against ONE schema object; every step equals the same load against a fresh schema - value tree, or error '
+             'class AND error text; a separate obligation compares a structural digest '
              'of the schema before and after (known finding F10).',
         note='the solver enumerates a finite history space (honest note in DESIGN); one value token symbolic; '
              'oracle = real code on a fresh schema',
@@ -219,9 +228,11 @@ CLAIMED = {
              '(name, level, propagate, handlers in order with level and format, idempotent), every sequence of '
              '{call factory, reopenFiles, closeFiles, drop references} up to the bound on real temp-file '
              'handlers (closeFiles closes every live stream), re-configuration of one logger name (propagate and '
-             'level of the latest configuration win), and 29 hand-written + 184 generated formats (every record '
-             'field x 4 styles x braced/unbraced x 2 formatter classes): accepted at load time => the formatter '
-             'builds, formats an ordinary record, and the text equals an independent reference renderer.',
+             'level of the latest configuration win), and 29 hand-written + 490 generated formats (every record '
+             'field x 4 styles x braced/unbraced, every conversion / presentation type on the numeric and string '
+             'fields, x 2 formatter classes): accepted at load time => the formatter builds, formats an ordinary '
+             'record (identifiers of realistic size), and the text equals an independent reference renderer; the '
+             'handler factory passes every configured option (delay, encoding, sizes) on to the handler.',
         note='trusted: z3, engine models (replayed per path), reference tables in vf/harness/c20.py; {-/$-'
              'format validation on symbolic formats, rotation behaviour, syslog/SMTP/HTTP/NT handlers are '
              'outside the claim',
